@@ -14,9 +14,9 @@ LEVEL = "exploration"
 RULE = (
     "a case = (pattern, replacement, source, count): 13 patterns with >= 1 wildcard (expression, statement and "
     "statement-sequence patterns) x replacements using each wildcard 0 / 1 / 2 times, the identity replacement, a "
-    "reordering and a multi-line statement replacement x 44 sources (no / one / two adjacent / nested / same-line / "
+    "reordering and a multi-line statement replacement x 54 sources (no / one / two adjacent / nested / same-line / "
     "indented / multi-line parenthesised / ignore-commented / non-ASCII occurrences, inside comprehensions, methods and "
-    "else branches) x count in {0, 1, 2} through sub() and subn(). oracle: no occurrence (independent reference "
+    "else branches, with multi-line / raw / bytes / f- / concatenated string literals inside the occurrence) x count in {0, 1, 2} through sub() and subn(). oracle: no occurrence (independent reference "
     "finder) => byte-identical; otherwise the output parses and its tree is the source tree with some non-overlapping "
     "subset of the occurrences replaced by the instantiated template (text or tree instantiation), at most `count` of "
     "them, at least one when an admissible one exists; identity replacement preserves the tree; lines touched by no "
@@ -57,6 +57,18 @@ SOURCES = [
     "y = (\n    f(a)\n    + f(b)  # pyrefact: ignore\n)\n", "f(a); x = '\x0c'  # pyrefact: ignore\nf(b)\n", "x = '\u2028'; f(a)  # pyrefact: ignore\n",
     "f(a)  # pyrefact: ignore",
     "y = sum(i for i in xs)\n", "y = sum((i for i in xs), 0)\n", "y = list(i * 2 for i in xs) + [0]\ng = (j for j in ys)\n",
+    # literals inside the matched text whose spelling is restored after the rewrite (added after the seeded change
+    # C14-multiline-literal-last-line-indent): multi-line, prefixed, concatenated, at column 0 and indented
+    "y = f('''top\nlevel\n  end''')\n",
+    "def o():\n    y = f(\"\"\"one\n    two\nthree\"\"\")\n    return y\n",
+    "def o():\n    z = \"\"\"a\nb\n  c\"\"\"\n    return z\n",
+    "class K:\n    def m(self):\n        return f(f\"\"\"x{self}\n  y\nz\"\"\")\n",
+    "def o():\n    z = f('''l1\nl2''') + f(\"\"\"m1\n\nm3\n\"\"\")\n    return z\n",
+    "def o():\n    y = f(r\"\\d+\\n\")\n    return y\n",
+    "y = f(r'\\n')\nz = f(b'\\x00\\n')\n",
+    "def o():\n    z = f('it' \"s\")\n    return f(u'x')\n",
+    "def o():\n    return f(R'''a\\n\nb''')\n",
+    "def o():\n    if c:\n        z = f(rb'''p\n  q''')\n    return f(f'{a!r:>4}' + '\\t')\n",
 ]
 
 
